@@ -482,7 +482,10 @@ def strload(val: str | bytes | bytearray | memoryview) -> PythonValueT:
         return compat.json.loads(val)
 
     decoded = decode(val)
-    with contextlib.suppress(ValueError, TypeError, SyntaxError):
+    # (Long runs of operators in ordinary text exhaust the literal parser.)
+    with contextlib.suppress(
+        ValueError, TypeError, SyntaxError, RecursionError, MemoryError
+    ):
         return ast.literal_eval(decoded)
 
     return decoded
